@@ -190,10 +190,12 @@ def modelable(case):
             and all(f in ["?g%d" % i for i in range(len(case["graphs"]))] for f in case.get("from") or []))
 
 
-def evaluate(ctx, name, cases, env, shard=1500):
-    """verdicts (model agrees, spec code, spec rows, repair mask) for every case, evaluated inside Coq"""
-    out = []
-    for k in range(0, len(cases), shard):
+def evaluate(ctx, name, cases, env, shard=1500, workers=4):
+    """verdicts (model agrees, spec code, spec rows, repair mask, in D3) for every case, evaluated inside Coq
+    (shards of `shard` cases, up to `workers` coqc processes at a time)"""
+    from concurrent.futures import ThreadPoolExecutor
+
+    def one(k):
         part = cases[k:k + shard]
         enc = Enc()
         names = [enc.case(c, env) for c in part]
@@ -206,8 +208,15 @@ def evaluate(ctx, name, cases, env, shard=1500):
         trip = re.findall(r"\(\s*(\d+),\s*(\d+),\s*(\d+),\s*(\d+),\s*(\d+)\s*\)", m.group(1))
         if len(trip) != len(part):
             raise vcheck.Broken("verdict count mismatch (%d for %d cases)" % (len(trip), len(part)), o[-2000:])
-        out += [(int(a), int(b), int(c), int(d), int(f)) for a, b, c, d, f in trip]
-    return out
+        return [(int(a), int(b), int(c), int(d), int(f)) for a, b, c, d, f in trip]
+
+    ks = list(range(0, len(cases), shard))
+    if len(ks) <= 1:
+        parts = [one(k) for k in ks]
+    else:
+        with ThreadPoolExecutor(max_workers=workers) as ex:
+            parts = list(ex.map(one, ks))
+    return [v for p in parts for v in p]
 
 
 def debug_case(ctx, case, env, name="debug"):
@@ -222,7 +231,7 @@ def debug_case(ctx, case, env, name="debug"):
 # bit of the repair mask -> finding id.  A deviation is attributed to a defect when switching exactly that repair on in
 # the model makes the model coincide with the specification on that very case.
 MASK_BITS = [(1, "C03-kind"), (2, "C10-disjoint-empty"), (4, "C03-join-kind"), (8, "C03-bound-alias-nil"),
-             (16, "C03-oid"), (32, "C03-string-object"), (128, "C03-spec3-global-bounds")]
+             (16, "C03-oid"), (32, "C03-string-object"), (128, "C03-spec3-global-bounds"), (256, "C03-zone-binding")]
 ALL_BIT = 64
 
 
@@ -277,10 +286,36 @@ def static_classes(case):
     return out
 
 
+def nozone(x):
+    if isinstance(x, dict):
+        return {k: nozone(v) for k, v in x.items() if k != "z"}
+    if isinstance(x, list):
+        return [nozone(v) for v in x]
+    return x
+
+
+def multiplicity_open(case):
+    """The property leaves multiplicities open when the same triple is stored in more than one listed graph.  The planner
+    collapses them in exactly one place: a fully specified clause without alias is an existence test (one unit, however many
+    graphs hold the triple), while the reference counts one match per graph."""
+    seen, dup = set(), set()
+    for g in case["graphs"]:
+        for t in set(json.dumps(nozone(t), sort_keys=True) for t in g):
+            (dup if t in seen else seen).add(t)
+    for c in case["clauses"] or []:
+        if clause_spec3(c) and not clause_has_alias(c):
+            t = json.dumps(nozone({"s": c["S"], "p": c["P"], "o": c["O"]}), sort_keys=True)
+            if t in dup:
+                return True
+    return False
+
+
 def classify(case, verdict):
     """None when the implementation meets the specification on this case; otherwise (finding id | None, explanation)"""
     a, b, n, mask = verdict[:4]
     if b == 2:
+        return None
+    if b == 1 and multiplicity_open(case):
         return None
     st = static_classes(case)
     res = case["result"]["kind"]
